@@ -82,9 +82,24 @@ func (c c12Codec) Write(w *avro.WriteBuf, p unsafe.Pointer) {
 
 func c12Builder(k int64) avro.CodecBuildFunc {
 	return func(s avro.Schema, typ reflect.Type, omit bool) (avro.Codec, error) {
+		if k%2 == 1 {
+			// a builder may itself construct codecs (delegate to the library for part of its
+			// work): codec construction is re-entered while this one is in progress
+			if _, err := c12ProbeSchema.Codec(c12Probe{}); err != nil {
+				return nil, err
+			}
+		}
 		return c12Codec{k: k}, nil
 	}
 }
+
+type c12Probe struct {
+	X int64  `json:"x"`
+	S string `json:"s"`
+}
+
+var c12ProbeSchema = avro.Schema{Type: "record", Object: &avro.SchemaObject{Name: "probe", Fields: []avro.SchemaRecordField{
+	{Name: "x", Type: avro.Schema{Type: "long"}}, {Name: "s", Type: avro.Schema{Type: "string"}}}}}
 
 func c12RegSchema(id int64) avro.Schema {
 	return avro.Schema{Type: "long", Object: &avro.SchemaObject{LogicalType: fmt.Sprintf("c12-%d", id)}}
@@ -925,9 +940,20 @@ func runC12(r *Run) {
 	r.Extra["race_detector"] = c12Race
 	totals := map[string]int{}
 	var procs []int
+	deadlocks := 0
 	for c := 0; c < children; c++ {
 		seed := r.Rng.Int63()
-		res := c12RunChild(seed, r.Tier, 300*time.Second)
+		if deadlocks >= 2 {
+			r.Notes = append(r.Notes, "stopped after two scenarios that did not finish: the violation is established, further children would each cost a full deadline")
+			break
+		}
+		// a child normally finishes in a few seconds; one that is still running after the
+		// deadline is stuck (deadlock or livelock)
+		deadline := 60 * time.Second
+		if r.Thorough() {
+			deadline = 120 * time.Second
+		}
+		res := c12RunChild(seed, r.Tier, deadline)
 		replay := map[string]any{"child_seed": seed, "tier": r.Tier, "goroutines": c12Goroutines,
 			"how": "build/impl-race -prop C12-child -seed <child_seed> -tier <tier> with GORACE='halt_on_error=1 exitcode=66' C12_RESP=<file>"}
 		r.Count("children")
@@ -937,7 +963,8 @@ func runC12(r *Run) {
 			continue
 		case res.timedOut:
 			replay["stderr"] = c12Head(res.stderr, 40)
-			r.Fail(-1, "concurrent-deadlock", "the concurrent scenario did not finish within 300 s", replay)
+			deadlocks++
+			r.Fail(-1, "concurrent-deadlock", fmt.Sprintf("the concurrent scenario did not finish within %v (children finish in seconds)", deadline), replay)
 			continue
 		case res.exitCode == 66 || strings.Contains(res.stderr, "WARNING: DATA RACE"):
 			i := strings.Index(res.stderr, "WARNING: DATA RACE")
